@@ -99,6 +99,7 @@ def run_property(prop: str, tier: str, seed: int, budget: int, with_lean=True) -
     else:
         from harness import props
         props.THOROUGH = tier == "thorough"
+        props.work_corpus(run, prop, rng)
         run.rule = props.WORK[prop](run, rng, budget)
     if with_lean:
         run.run_correspondence()
